@@ -2,6 +2,9 @@
 #![allow(dead_code)]
 mod checks;
 mod checks2;
+mod checks3;
+mod gfp;
+mod numtypes;
 mod dd;
 mod exec;
 mod gen;
